@@ -428,6 +428,8 @@ where
         f: F,
     ) -> B {
         let range_bytes = (to - from) * Self::SIZE_OF_T;
+        #[cfg(feature = "verif")]
+        let range_bytes = rawdb::verif::crossover_adjust(range_bytes);
         if range_bytes > MMAP_CROSSOVER_BYTES {
             RawIoSource::new(self, from, to).fold(init, f)
         } else {
@@ -444,6 +446,8 @@ where
         f: F,
     ) -> std::result::Result<B, E> {
         let range_bytes = (to - from) * Self::SIZE_OF_T;
+        #[cfg(feature = "verif")]
+        let range_bytes = rawdb::verif::crossover_adjust(range_bytes);
         if range_bytes > MMAP_CROSSOVER_BYTES {
             RawIoSource::new(self, from, to).try_fold(init, f)
         } else {
